@@ -1,0 +1,92 @@
+//go:build verif
+
+package diam
+
+import (
+	"net"
+	"sync"
+	"time"
+
+	"github.com/ishidawataru/sctp"
+)
+
+// SCTPBackend is an in-memory replacement for the kernel socket of an SCTPConn.
+type SCTPBackend interface {
+	SCTPRead(b []byte) (int, *sctp.SndRcvInfo, error)
+	SCTPWrite(b []byte, info *sctp.SndRcvInfo) (int, error)
+	Close() error
+	LocalAddr() net.Addr
+	RemoteAddr() net.Addr
+}
+
+var sctpBackends sync.Map // *SCTPConn -> SCTPBackend
+
+// NewSCTPConnBackend builds a MultistreamConn over an in-memory backend.
+func NewSCTPConnBackend(b SCTPBackend) MultistreamConn {
+	c := &SCTPConn{s: &streams{}, currStream: InvalidStreamID, writerStream: InvalidStreamID}
+	sctpBackends.Store(c, b)
+	return c
+}
+
+func (msc *SCTPConn) backend() SCTPBackend {
+	if v, ok := sctpBackends.Load(msc); ok {
+		return v.(SCTPBackend)
+	}
+	return nil
+}
+
+func (msc *SCTPConn) SCTPRead(b []byte) (int, *sctp.SndRcvInfo, error) {
+	if be := msc.backend(); be != nil {
+		return be.SCTPRead(b)
+	}
+	return msc.SCTPConn.SCTPRead(b)
+}
+
+func (msc *SCTPConn) SCTPWrite(b []byte, info *sctp.SndRcvInfo) (int, error) {
+	if be := msc.backend(); be != nil {
+		return be.SCTPWrite(b, info)
+	}
+	return msc.SCTPConn.SCTPWrite(b, info)
+}
+
+func (msc *SCTPConn) Close() error {
+	if be := msc.backend(); be != nil {
+		return be.Close()
+	}
+	return msc.SCTPConn.Close()
+}
+
+func (msc *SCTPConn) LocalAddr() net.Addr {
+	if be := msc.backend(); be != nil {
+		return be.LocalAddr()
+	}
+	return msc.SCTPConn.LocalAddr()
+}
+
+func (msc *SCTPConn) RemoteAddr() net.Addr {
+	if be := msc.backend(); be != nil {
+		return be.RemoteAddr()
+	}
+	return msc.SCTPConn.RemoteAddr()
+}
+
+func (msc *SCTPConn) SetDeadline(t time.Time) error {
+	if msc.backend() != nil {
+		return nil
+	}
+	return msc.SCTPConn.SetDeadline(t)
+}
+
+func (msc *SCTPConn) SetReadDeadline(t time.Time) error {
+	if msc.backend() != nil {
+		return nil
+	}
+	return msc.SCTPConn.SetReadDeadline(t)
+}
+
+func (msc *SCTPConn) SetWriteDeadline(t time.Time) error {
+	if msc.backend() != nil {
+		return nil
+	}
+	return msc.SCTPConn.SetWriteDeadline(t)
+}
